@@ -127,7 +127,7 @@ def worker_loop(
                         )
                         msg.ack()  # acknowledge to remove the message if applicable
                         continue  # skip processing this message
-                    data = msg.data or NoDataType()
+                    data = msg.data if msg.data is not None else NoDataType()
                     context = msg.context or ContextType()
 
                     worker_logger.debug(
